@@ -88,6 +88,9 @@ def _worker_ctrl(items, base):
         for tail in _C_TAILS:
             prog = gen_ctrl.make_program(body, tail)
             check_program(prog, _C_CFGS, inputs, cache, out, size=size, driver="C")
+            if gen_ctrl.has_repeated_stmt(body):
+                # same program, but every repeated statement is ONE Expr object used several times
+                check_program(dict(prog, share=True), _C_CFGS[4:9:2], inputs, cache, out, size=size, driver="C-shared")
         out["counters"]["states"] = out["counters"].get("states", 0) + 1
         out["counters"]["transitions"] = out["counters"].get("transitions", 0) + gen_ctrl.count_transitions(body)
         if len(cache.cache) > 20000:
